@@ -36,17 +36,56 @@ theorem get_recent_block_heights_eq (h : Nat) :
      simp only [List.map_map, Function.comp_def, List.map_id'] at this ⊢
      exact this)
   | (have := filter_map_sub Model.oldness h
-     simp_all [oldness_eq, Function.comp_def])
+     simp_all [oldness_eq, Function.comp_def]
+     done)
+  | (-- the filter written before the map: `[h - o for o in oldness if h - o >= 0]`
+     dsimp only
+     rw [oldness_eq, List.filter_map, List.map_map]
+     have hf : (Model.oldness.filter ((fun (o : Int) => decide ((h : Int) - o ≥ 0)) ∘ fun (o : Nat) => (o : Int)))
+         = Model.oldness.filter (fun o => decide (o ≤ h)) := by
+       apply List.filter_congr
+       intro o _
+       simp only [Function.comp]
+       by_cases ho : o ≤ h
+       · have : (h : Int) - (o : Int) ≥ 0 := by omega
+         simp [ho, this]
+       · have : ¬ ((h : Int) - (o : Int) ≥ 0) := by omega
+         simp [ho, this]
+     rw [hf, List.map_map]
+     apply List.map_congr_left
+     intro o ho
+     have : o ≤ h := by simpa using (List.mem_filter.mp ho).2
+     simp only [Function.comp]
+     omega)
 
+/-- the code's `is_time_to_connect`, as translated now (either of two known shapes), is the model's -/
 theorem is_time_to_connect_eq (ban : Nat) (last : Option Int) (now : Int) :
     Gen.is_time_to_connect ban last now = Model.isTimeToConnect Gen.params ban last now := by
-  unfold Gen.is_time_to_connect Model.isTimeToConnect
-  simp only [Gen.params]
-  have hp : ((2 : Int) ^ ban) = (((2 : Nat) ^ ban : Nat) : Int) := by simp
-  cases last with
-  | none => simp
-  | some t =>
-    simp only [Option.isNone_some, Option.getD_some, Bool.false_or]
+  first
+  | (
+    unfold Gen.is_time_to_connect Model.isTimeToConnect
+    simp only [Gen.params]
+    have hp : ((2 : Int) ^ ban) = (((2 : Nat) ^ ban : Nat) : Int) := by simp
+    cases last with
+    | none => simp
+    | some t =>
+      simp only [Option.isNone_some, Option.getD_some, Bool.false_or]
+      rw [hp]
+      generalize (2 : Nat) ^ ban = p
+      by_cases hb : ban > Gen.MAX_CONNECTION_ATTEMPTS
+      · have : ((ban : Nat) : Int) > (Gen.MAX_CONNECTION_ATTEMPTS : Int) := by omega
+        simp [hb, this]
+      · have : ¬ (((ban : Nat) : Int) > (Gen.MAX_CONNECTION_ATTEMPTS : Int)) := by omega
+        simp only [hb, this, decide_false, if_false, Bool.false_eq_true]
+        congr 1
+        simp only [Gen.TIME_TO_SECOND_CONNECTION_ATTEMPT, Gen.MAX_TIME_BETWEEN_CONNECTION_ATTEMPTS]
+        apply propext
+        constructor <;> intro h <;> omega
+    )
+  | (
+    unfold Gen.is_time_to_connect Model.isTimeToConnect
+    simp only [Gen.params]
+    have hp : ((2 : Int) ^ ban) = (((2 : Nat) ^ ban : Nat) : Int) := by simp
     rw [hp]
     generalize (2 : Nat) ^ ban = p
     by_cases hb : ban > Gen.MAX_CONNECTION_ATTEMPTS
@@ -54,9 +93,16 @@ theorem is_time_to_connect_eq (ban : Nat) (last : Option Int) (now : Int) :
       simp [hb, this]
     · have : ¬ (((ban : Nat) : Int) > (Gen.MAX_CONNECTION_ATTEMPTS : Int)) := by omega
       simp only [hb, this, decide_false, if_false, Bool.false_eq_true]
-      congr 1
-      simp only [Gen.TIME_TO_SECOND_CONNECTION_ATTEMPT, Gen.MAX_TIME_BETWEEN_CONNECTION_ATTEMPTS]
-      apply propext
-      constructor <;> intro h <;> omega
+      cases last with
+      | none => simp
+      | some t =>
+        simp only [Option.isNone_some, Option.getD_some, Bool.false_or, Bool.false_eq_true, if_false]
+        simp only [Gen.TIME_TO_SECOND_CONNECTION_ATTEMPT, Gen.MAX_TIME_BETWEEN_CONNECTION_ATTEMPTS]
+        by_cases h1 : now - t ≥ min (10 * (p : Int)) 1800
+        · have h2 : now ≥ t + min (10 * (p : Int)) 1800 := by omega
+          simp [h1, h2]; omega
+        · have h2 : ¬ now ≥ t + min (10 * (p : Int)) 1800 := by omega
+          simp [h1, h2]; omega
+    )
 
 end GenTie
